@@ -1,15 +1,219 @@
 (* C03 — PostgreSQL statement sequences are executable and leave the declared schema (interpreted by a
-   PostgreSQL catalog model).  Pinned statements only. *)
-From VV.PG Require Import WitnessP.
+   PostgreSQL catalog model: coq/pg/Model/Engine.v, modelled, not verified).  Pinned statements only. *)
+From VV.PG Require Import WitnessP SimKindsP.
 
-(* the full-strength target (a definition, not a claim): for every baseline and every action list, executing
-   gen_plan from catalog_of (baseline) never errors and ends in catalog_of (replayed baseline) *)
+(* ---------- the full-strength target (a definition, not a claim) ----------
+   for every baseline and every action list whose replay succeeds, executing gen_plan from
+   catalog_of (baseline) never errors and ends in catalog_of (replayed baseline) *)
 Definition C03_full_statement : Prop :=
   forall s acts s', apply_all s acts = Ok s' ->
     exists stmts c', gen_plan s acts = Ok stmts /\ run_actions (catalog_of s) 0 stmts = Ok c'
                      /\ cat_equiv c' (catalog_of s') = true.
 
+(* it is FALSE of the faithful model *)
 Theorem C03_refuted : ~ C03_full_statement.
 Proof. exact c03_refuted. Qed.
 Print Assumptions C03_refuted.
 Check C03_refuted : ~ C03_full_statement.
+
+(* ---------- refutation witnesses (each is a corpus file replayed on the real code by every run) ---------- *)
+Theorem C03_drop_type_shared_refuted :
+  run_plan w_shared [DeleteColumn "t" "b"] = Some (Err (0, 1, ETypeInUse "t_status"))%nat.
+Proof. exact drop_type_shared_refuted. Qed.
+Print Assumptions C03_drop_type_shared_refuted.
+Check C03_drop_type_shared_refuted :
+  run_plan w_shared [DeleteColumn "t" "b"] = Some (Err (0, 1, ETypeInUse "t_status"))%nat.
+
+Theorem C03_drop_type_int_enum_refuted :
+  run_plan w_int [DeleteColumn "t" "lvl"] = Some (Err (0, 1, ENoType "t_level"))%nat.
+Proof. exact drop_type_int_enum_refuted. Qed.
+Print Assumptions C03_drop_type_int_enum_refuted.
+Check C03_drop_type_int_enum_refuted :
+  run_plan w_int [DeleteColumn "t" "lvl"] = Some (Err (0, 1, ENoType "t_level"))%nat.
+
+Theorem C03_drop_table_order_refuted :
+  run_plan w_d2 [DeleteTable "user"; RemoveConstraint "post" w_fk]
+  = Some (Err (0, 0, EDependentFk "user" "post" "fk_post__user_id"))%nat.
+Proof. exact drop_table_order_refuted. Qed.
+Print Assumptions C03_drop_table_order_refuted.
+Check C03_drop_table_order_refuted :
+  run_plan w_d2 [DeleteTable "user"; RemoveConstraint "post" w_fk]
+  = Some (Err (0, 0, EDependentFk "user" "post" "fk_post__user_id"))%nat.
+
+Theorem C03_check_dropped_refuted :
+  match run_plan [] w_check with
+  | Some (Ok c) => cat_diff c (catalog_of (after_of [] w_check)) = [DMissingConstraint "t" "chk_pos"]
+  | _ => False
+  end.
+Proof. exact check_dropped_refuted. Qed.
+Print Assumptions C03_check_dropped_refuted.
+Check C03_check_dropped_refuted :
+  match run_plan [] w_check with
+  | Some (Ok c) => cat_diff c (catalog_of (after_of [] w_check)) = [DMissingConstraint "t" "chk_pos"]
+  | _ => False
+  end.
+
+Theorem C03_pkey_after_rename_refuted :
+  run_plan w_t [RenameTable "t" "u"; RemoveConstraint "u" pk_id] = Some (Err (1, 0, ENoConstraint "u" "u_pkey"))%nat.
+Proof. exact pkey_after_rename_refuted. Qed.
+Print Assumptions C03_pkey_after_rename_refuted.
+Check C03_pkey_after_rename_refuted :
+  run_plan w_t [RenameTable "t" "u"; RemoveConstraint "u" pk_id] = Some (Err (1, 0, ENoConstraint "u" "u_pkey"))%nat.
+
+Theorem C03_composite_member_refuted :
+  run_plan w_d18 [DeleteColumn "t" "b"; RemoveConstraint "t" (CIndex None ["a"; "b"]); AddConstraint "t" (CIndex None ["a"])]
+  = Some (Err (1, 0, ENoIndex "ix_t__a_b"))%nat.
+Proof. exact composite_member_refuted. Qed.
+Print Assumptions C03_composite_member_refuted.
+Check C03_composite_member_refuted :
+  run_plan w_d18 [DeleteColumn "t" "b"; RemoveConstraint "t" (CIndex None ["a"; "b"]); AddConstraint "t" (CIndex None ["a"])]
+  = Some (Err (1, 0, ENoIndex "ix_t__a_b"))%nat.
+
+Theorem C03_enum_left_by_drop_table_refuted :
+  match run_plan w_enum_t [DeleteTable "t"] with
+  | Some (Ok c) => cat_diff c (catalog_of []) = [DExtraType "t_status"]
+  | _ => False
+  end.
+Proof. exact enum_left_by_drop_table_refuted. Qed.
+Print Assumptions C03_enum_left_by_drop_table_refuted.
+Check C03_enum_left_by_drop_table_refuted :
+  match run_plan w_enum_t [DeleteTable "t"] with
+  | Some (Ok c) => cat_diff c (catalog_of []) = [DExtraType "t_status"]
+  | _ => False
+  end.
+
+Theorem C03_enum_case_fold_refuted :
+  run_plan [] [CreateTable "t" [icol "id"; ncol "s" (TEnum "Status" (EVString ["on"]))] [pk_id]]
+  = Some (Err (0, 1, ENoType "t_status"))%nat.
+Proof. exact enum_case_fold_refuted. Qed.
+Print Assumptions C03_enum_case_fold_refuted.
+Check C03_enum_case_fold_refuted :
+  run_plan [] [CreateTable "t" [icol "id"; ncol "s" (TEnum "Status" (EVString ["on"]))] [pk_id]]
+  = Some (Err (0, 1, ENoType "t_status"))%nat.
+
+Theorem C03_rename_column_names_refuted :
+  run_plan w_ix [RenameColumn "t" "a" "b"; RemoveConstraint "t" (CIndex None ["b"])]
+  = Some (Err (1, 0, ENoIndex "ix_t__b"))%nat.
+Proof. exact rename_column_names_refuted. Qed.
+Print Assumptions C03_rename_column_names_refuted.
+Check C03_rename_column_names_refuted :
+  run_plan w_ix [RenameColumn "t" "a" "b"; RemoveConstraint "t" (CIndex None ["b"])]
+  = Some (Err (1, 0, ENoIndex "ix_t__b"))%nat.
+
+(* ---------- the simulation invariant Sim s c := c = catalog_of s, lifted over plans and histories (no bound) ---------- *)
+Theorem C03_Sim_plan : forall acts s n,
+  all_steps step_sim s acts ->
+  exists qs, gen_plan s acts = Ok qs /\
+             run_actions (catalog_of s) n qs = Ok (catalog_of (final_schema s acts)).
+Proof. exact Sim_plan. Qed.
+Print Assumptions C03_Sim_plan.
+Check C03_Sim_plan : forall acts s n,
+  all_steps step_sim s acts ->
+  exists qs, gen_plan s acts = Ok qs /\
+             run_actions (catalog_of s) n qs = Ok (catalog_of (final_schema s acts)).
+
+Theorem C03_Sim_history : forall h s,
+  all_history step_sim s h ->
+  run_history (catalog_of s) s h = Some (catalog_of (fold_left final_schema h s)).
+Proof. exact Sim_history. Qed.
+Print Assumptions C03_Sim_history.
+Check C03_Sim_history : forall h s,
+  all_history step_sim s h ->
+  run_history (catalog_of s) s h = Some (catalog_of (fold_left final_schema h s)).
+
+Theorem C03_final_schema_is_replay : forall acts s s', apply_all s acts = Ok s' -> final_schema s acts = s'.
+Proof. exact final_schema_apply_all. Qed.
+Print Assumptions C03_final_schema_is_replay.
+Check C03_final_schema_is_replay : forall acts s s', apply_all s acts = Ok s' -> final_schema s acts = s'.
+
+(* ---------- one lemma per action kind: decidable hypothesis -> the step preserves Sim ---------- *)
+Theorem C03_sim_pg_raw_sql : forall s sql, step_sim s (RawSql sql).
+Proof. exact sim_pg_raw_sql. Qed.
+Print Assumptions C03_sim_pg_raw_sql.
+Check C03_sim_pg_raw_sql : forall s sql, step_sim s (RawSql sql).
+
+Theorem C03_sim_pg_modify_column_comment : forall s tn cn d,
+  hyp_modify_comment s tn cn = true -> step_sim s (ModifyColumnComment tn cn d).
+Proof. exact sim_pg_modify_column_comment. Qed.
+Print Assumptions C03_sim_pg_modify_column_comment.
+Check C03_sim_pg_modify_column_comment : forall s tn cn d,
+  hyp_modify_comment s tn cn = true -> step_sim s (ModifyColumnComment tn cn d).
+
+(* Index / Unique / Check.  _partial: PrimaryKey and ForeignKey are not covered (ADD PRIMARY KEY changes NOT NULL
+   flags and, with auto_increment, is refuted — K12; ADD FOREIGN KEY needs the A1 target-key argument) *)
+Theorem C03_sim_pg_add_constraint_partial : forall s tn k,
+  hyp_add_constraint s tn k = true -> step_sim s (AddConstraint tn k).
+Proof. exact sim_pg_add_constraint. Qed.
+Print Assumptions C03_sim_pg_add_constraint_partial.
+Check C03_sim_pg_add_constraint_partial : forall s tn k,
+  hyp_add_constraint s tn k = true -> step_sim s (AddConstraint tn k).
+
+(* Index / Check / ForeignKey.  _partial: Unique (needs "no foreign key depends on the unique index") and PrimaryKey
+   (refuted under a referencing foreign key — K15) are not covered *)
+Theorem C03_sim_pg_remove_constraint_partial : forall s tn k,
+  hyp_remove_constraint s tn k = true -> step_sim s (RemoveConstraint tn k).
+Proof. exact sim_pg_remove_constraint. Qed.
+Print Assumptions C03_sim_pg_remove_constraint_partial.
+Check C03_sim_pg_remove_constraint_partial : forall s tn k,
+  hyp_remove_constraint s tn k = true -> step_sim s (RemoveConstraint tn k).
+
+(* outside K4 (inbound foreign key) and K8 (string enum column) *)
+Theorem C03_sim_pg_delete_table : forall s tn, hyp_delete_table s tn = true -> step_sim s (DeleteTable tn).
+Proof. exact sim_pg_delete_table. Qed.
+Print Assumptions C03_sim_pg_delete_table.
+Check C03_sim_pg_delete_table : forall s tn, hyp_delete_table s tn = true -> step_sim s (DeleteTable tn).
+
+(* _partial: the plain path only — no enum type to create, no back-fill sequence, re-normalisation promotes nothing *)
+Theorem C03_sim_pg_add_column_partial : forall s tn col fw,
+  hyp_add_column s tn col fw = true -> step_sim s (AddColumn tn col fw).
+Proof. exact sim_pg_add_column. Qed.
+Print Assumptions C03_sim_pg_add_column_partial.
+Check C03_sim_pg_add_column_partial : forall s tn col fw,
+  hyp_add_column s tn col fw = true -> step_sim s (AddColumn tn col fw).
+
+(* _partial: the plain path only — the column has no enum type, belongs to no constraint or index, no CHECK mentions
+   it and no foreign key references it (outside K2, K3, K4, K5) *)
+Theorem C03_sim_pg_delete_column_partial : forall s tn cn,
+  hyp_delete_column s tn cn = true -> step_sim s (DeleteColumn tn cn).
+Proof. exact sim_pg_delete_column. Qed.
+Print Assumptions C03_sim_pg_delete_column_partial.
+Check C03_sim_pg_delete_column_partial : forall s tn cn,
+  hyp_delete_column s tn cn = true -> step_sim s (DeleteColumn tn cn).
+
+(* ---------- the hypotheses are satisfiable by non-trivial values ---------- *)
+Example ex_modify_comment : hyp_modify_comment w_d2 "post" "user_id" = true.
+Proof. vm_compute. reflexivity. Qed.
+Example ex_add_index : hyp_add_constraint w_d2 "post" (CIndex None ["user_id"]) = true.
+Proof. vm_compute. reflexivity. Qed.
+Example ex_add_unique : hyp_add_constraint w_d2 "post" (CUnique (Some "k") ["user_id"; "id"]) = true.
+Proof. vm_compute. reflexivity. Qed.
+Example ex_add_check : hyp_add_constraint w_d2 "post" (CCheck "chk_pos" "id > 0") = true.
+Proof. vm_compute. reflexivity. Qed.
+Example ex_remove_fk : hyp_remove_constraint w_d2 "post" w_fk = true.
+Proof. vm_compute. reflexivity. Qed.
+Example ex_remove_index : hyp_remove_constraint w_d18 "t" (CIndex None ["a"; "b"]) = true.
+Proof. vm_compute. reflexivity. Qed.
+Example ex_delete_table : hyp_delete_table w_d2 "post" = true.
+Proof. vm_compute. reflexivity. Qed.
+Example ex_add_column : hyp_add_column w_d2 "post" (mkCol "title" (TVarchar 32) false (Some (DStr "'x'")) None None None None None) None = true.
+Proof. vm_compute. reflexivity. Qed.
+Example ex_delete_column : hyp_delete_column w_d18 "t" "a" = false /\ hyp_delete_column w_shared "t" "id" = false
+  /\ hyp_delete_column [mkTable "t" None [icol "id"; ncol "note" (TSimple Text)] [pk_id; CCheck "c" "id > 0"]] "t" "note" = true.
+Proof. vm_compute. repeat split. Qed.
+(* a two-migration history every step of which falls under a proved lemma, hence (C03_Sim_history) runs to catalog_of *)
+Example ex_history :
+  run_history (catalog_of w_d2) w_d2
+    [[AddColumn "post" (mkCol "title" (TSimple Text) true None None None None None None) None;
+      AddConstraint "post" (CIndex None ["title"])];
+     [RemoveConstraint "post" w_fk; DeleteTable "user"]]
+  = Some (catalog_of (fold_left final_schema
+       [[AddColumn "post" (mkCol "title" (TSimple Text) true None None None None None None) None;
+         AddConstraint "post" (CIndex None ["title"])];
+        [RemoveConstraint "post" w_fk; DeleteTable "user"]] w_d2)).
+Proof.
+  apply Sim_history. cbn [all_history all_steps]. repeat split.
+  - apply sim_pg_add_column. vm_compute. reflexivity.
+  - apply sim_pg_add_constraint. vm_compute. reflexivity.
+  - apply sim_pg_remove_constraint. vm_compute. reflexivity.
+  - apply sim_pg_delete_table. vm_compute. reflexivity.
+Qed.
